@@ -243,3 +243,163 @@ def selection_facts():
 def coq_selection_facts(facts):
     return ("From CE Require Import Model.Selection.\nDefinition src_facts : list (string * string) :=\n  [" +
             ";\n   ".join('("%s", "%s")' % (k, v.replace('"', "'")) for k, v in facts) + "].")
+
+
+# ---------------------------------------------------------------------------
+# discovery.discover_network: lag construction and edge emission  ->  Lagged model
+# ---------------------------------------------------------------------------
+def affine(n, env):
+    """Python int expression over named variables -> Coq Z expression text (fail-closed)."""
+    if isinstance(n, ast.Name) and n.id in env:
+        return env[n.id]
+    if isinstance(n, ast.Constant) and isinstance(n.value, int) and not isinstance(n.value, bool):
+        return f"({n.value})"
+    if isinstance(n, ast.BinOp) and type(n.op) in (ast.Add, ast.Sub, ast.Mult):
+        op = {ast.Add: "+", ast.Sub: "-", ast.Mult: "*"}[type(n.op)]
+        return f"({affine(n.left, env)} {op} {affine(n.right, env)})"
+    raise Unavailable(f"non-affine expression `{src(n)}`")
+
+
+def discover_facts():
+    tree = parse("causationentropy/core/discovery.py")
+    dn = func(tree, "discover_network")
+    env = {"max_lag": "L", "tau": "tau", "T": "T"}
+    out = {}
+    # col = series[max_lag - tau : T - tau, j] inside  for j in range(n): for tau in range(1, max_lag + 1)
+    col = one((n for n in ast.walk(dn) if isinstance(n, ast.Assign) and is_name(n.targets[0], "col")), "col assignment")
+    sub = col.value
+    if not (isinstance(sub, ast.Subscript) and is_name(sub.value, "series") and isinstance(sub.slice, ast.Tuple)
+            and len(sub.slice.elts) == 2 and isinstance(sub.slice.elts[0], ast.Slice) and sub.slice.elts[0].step is None):
+        raise Unavailable("col slice shape")
+    sl, cj = sub.slice.elts
+    out["x_lo"], out["x_hi"] = affine(sl.lower, env), affine(sl.upper, env)
+    out["x_col_var"] = src(cj)
+    loops = [n for n in ast.walk(dn) if isinstance(n, ast.For)]
+    outer = one((l for l in loops if is_name(l.target, "j")), "loop j")
+    inner = one((l for l in outer.body if isinstance(l, ast.For) and is_name(l.target, "tau")), "loop tau inside loop j")
+    if src(outer.iter).replace(" ", "") != "range(n)":
+        raise Unavailable("loop j range")
+    r = inner.iter
+    if not (isinstance(r, ast.Call) and is_name(r.func, "range") and len(r.args) == 2):
+        raise Unavailable("loop tau range")
+    out["tau_from"], out["tau_to_excl"] = affine(r.args[0], env), affine(r.args[1], env)
+    body = [src(b).replace(" ", "") for b in inner.body]
+    if "X_lagged.append(col)" not in body:
+        raise Unavailable("X_lagged.append(col)")
+    lab = [b for b in body if b.startswith("feature_names.append(")]
+    out["label"] = one(lab, "feature_names.append")[len("feature_names.append("):-1]
+    # Y_all = series[max_lag:, :]
+    ya = one((n for n in ast.walk(dn) if isinstance(n, ast.Assign) and is_name(n.targets[0], "Y_all")), "Y_all")
+    ys = ya.value
+    if not (isinstance(ys, ast.Subscript) and is_name(ys.value, "series") and isinstance(ys.slice, ast.Tuple)
+            and isinstance(ys.slice.elts[0], ast.Slice) and ys.slice.elts[0].upper is None and src(ys.slice.elts[1]) == ":"):
+        raise Unavailable("Y_all slice")
+    out["y_lo"] = affine(ys.slice.elts[0].lower, env)
+    s = _stmts(dn)
+    if "Y=Y_all[:,[i]]" not in s or "X_lagged=np.column_stack(X_lagged)" not in s or "T,n=series.shape" not in s:
+        raise Unavailable("Y / X_lagged / shape statements")
+    # Z_init.append(series[max_lag - tau : T - tau, i])
+    zi = one((n for n in ast.walk(dn) if isinstance(n, ast.Call) and src(n.func) == "Z_init.append"), "Z_init.append")
+    zsub = zi.args[0]
+    if not (isinstance(zsub, ast.Subscript) and is_name(zsub.value, "series")):
+        raise Unavailable("Z_init element")
+    zsl, zc = zsub.slice.elts
+    out["z_lo"], out["z_hi"], out["z_col_var"] = affine(zsl.lower, env), affine(zsl.upper, env), src(zc)
+    # edge emission
+    need = {"src_var,src_lag=feature_names[s]": "label_lookup", "X_predictor=X_lagged[:,[s]]": "x_predictor",
+            "Y_target=Y": "y_target", "other_selected=[idxforidxinSifidx!=s]": "others",
+            "Z_cond=X_lagged[:,other_selected]ifother_selectedelseNone": "z_cond"}
+    for k, v in need.items():
+        if k not in s:
+            raise Unavailable(f"edge emission statement `{k}`")
+    ec = one((n for n in ast.walk(dn) if isinstance(n, ast.Call) and src(n.func) == "conditional_mutual_information"), "edge cmi call")
+    out["edge_cmi_args"] = ",".join(src(a) for a in ec.args[:3])
+    et = one((n for n in ast.walk(dn) if isinstance(n, ast.Call) and src(n.func) == "shuffle_test"), "edge test call")
+    st_args = [a.arg for a in func(tree, "shuffle_test").args.args]
+    out["edge_test_args"] = ",".join(_arg(et, st_args, a) for a in ("X", "Y", "Z", "observed_cmi", "rng", "n_shuffles"))
+    ae = one((n for n in ast.walk(dn) if isinstance(n, ast.Call) and src(n.func) == "G.add_edge"), "add_edge")
+    kw = {k.arg: src(k.value).replace('"', "'") for k in ae.keywords}
+    out["add_edge"] = ",".join([src(a) for a in ae.args] + [f"{k}={kw[k]}" for k in sorted(kw)])
+    return out
+
+
+def coq_discover_facts(f):
+    return f"""From Coq Require Import ZArith Lia String List.
+Import ListNotations.
+Open Scope Z_scope.
+Definition src_x_lo (L tau T : Z) : Z := {f['x_lo']}.
+Definition src_x_hi (L tau T : Z) : Z := {f['x_hi']}.
+Definition src_z_lo (L tau T : Z) : Z := {f['z_lo']}.
+Definition src_z_hi (L tau T : Z) : Z := {f['z_hi']}.
+Definition src_y_lo (L tau T : Z) : Z := {f['y_lo']}.
+Definition src_tau_from (L tau T : Z) : Z := {f['tau_from']}.
+Definition src_tau_to_excl (L tau T : Z) : Z := {f['tau_to_excl']}.
+(* the slice bounds read from the source equal the model's lagged_col / y_col / own_lags bounds *)
+Lemma src_slices_are_modelled : forall L tau T, 1 <= tau <= L -> L < T ->
+  src_x_lo L tau T = L - tau /\\ src_x_hi L tau T = T - tau /\\
+  src_z_lo L tau T = L - tau /\\ src_z_hi L tau T = T - tau /\\ src_y_lo L tau T = L /\\
+  src_tau_from L tau T = 1 /\\ src_tau_to_excl L tau T = L + 1.
+Proof. intros; unfold src_x_lo, src_x_hi, src_z_lo, src_z_hi, src_y_lo, src_tau_from, src_tau_to_excl; lia. Qed.
+Open Scope string_scope.
+Definition src_roles : list (string * string) :=
+  [("x_col_var", "{f['x_col_var']}"); ("z_col_var", "{f['z_col_var']}"); ("label", "{f['label']}");
+   ("edge_cmi_args", "{f['edge_cmi_args']}"); ("edge_test_args", "{f['edge_test_args']}"); ("add_edge", "{f['add_edge']}")].
+Lemma src_roles_are_modelled : src_roles =
+  [("x_col_var", "j"); ("z_col_var", "i"); ("label", "(j,tau)");
+   ("edge_cmi_args", "X_predictor,Y_target,Z_cond"); ("edge_test_args", "X_predictor,Y_target,Z_cond,cmi,rng,n_shuffles");
+   ("add_edge", "var_names[src_var],var_names[i],cmi=cmi,lag=src_lag,p_value=test_result['P_value']")].
+Proof. reflexivity. Qed.
+"""
+
+
+# ---------------------------------------------------------------------------
+# discovery.discover_network: request validation  ->  Discover.validate
+# ---------------------------------------------------------------------------
+def guard_facts():
+    tree = parse("causationentropy/core/discovery.py")
+    dn = func(tree, "discover_network")
+    guards = []
+    for st in dn.body:
+        if isinstance(st, ast.If) and len(st.body) == 1 and isinstance(st.body[0], ast.Raise):
+            exc = st.body[0].exc
+            guards.append((src(st.test).replace(" ", ""), src(exc.func) if isinstance(exc, ast.Call) else src(exc)))
+    infos = None
+    for st in dn.body:
+        if isinstance(st, ast.Assign) and is_name(st.targets[0], "supported_information_types") and isinstance(st.value, ast.List):
+            infos = [e.value for e in st.value.elts if isinstance(e, ast.Constant)]
+    if infos is None:
+        raise Unavailable("supported_information_types list")
+    if len(guards) != 3:
+        raise Unavailable(f"expected 3 raise-guards at the top level of discover_network, found {len(guards)}")
+    g0, g1, g2 = guards
+    pre = "methodnotin["
+    if not (g0[0].startswith(pre) and g0[0].endswith("]")):
+        raise Unavailable(f"method guard `{g0[0]}`")
+    methods = [m.strip("'\"") for m in g0[0][len(pre):-1].split(",")]
+    if g1[0] != "informationnotinsupported_information_types":
+        raise Unavailable(f"information guard `{g1[0]}`")
+    tree_len = one((st for st in dn.body if isinstance(st, ast.If) and src(st.test).replace(" ", "") == g2[0]), "length guard")
+    c = tree_len.test
+    if not (isinstance(c, ast.Compare) and len(c.ops) == 1 and is_name(c.left, "T")):
+        raise Unavailable("length guard shape")
+    return {"methods": methods, "infos": infos, "exc": [g0[1], g1[1], g2[1]],
+            "len_op": type(c.ops[0]).__name__, "len_rhs": affine(c.comparators[0], {"max_lag": "L"})}
+
+
+def coq_guard_facts(f):
+    ql = lambda xs: "[" + "; ".join('"%s"' % x for x in xs) + "]"
+    return f"""From Coq Require Import ZArith Lia String List.
+From CE Require Import Model.Discover.
+Import ListNotations.
+Open Scope string_scope.
+Definition src_methods : list string := {ql(f['methods'])}.
+Definition src_infos : list string := {ql(f['infos'])}.
+Definition src_exceptions : list string := {ql(f['exc'])}.
+Definition src_len_op : string := "{f['len_op']}".
+Definition src_len_rhs (L : Z) : Z := {f['len_rhs']}.
+Lemma src_guards_are_modelled :
+  src_methods = supported_methods /\\ src_infos = supported_information /\\
+  src_exceptions = ["NotImplementedError"; "NotImplementedError"; "ValueError"] /\\ src_len_op = "LtE" /\\
+  forall L, (src_len_rhs L = L + 2)%Z.
+Proof. repeat split; try reflexivity; intros L; unfold src_len_rhs; lia. Qed.
+"""
